@@ -158,6 +158,40 @@ fn main() {
             let agg = core::run_batch_local(engine.as_ref(), &cfg);
             println!("{}", agg.to_json());
         }
+        Some("trace") => {
+            // trace <engine> <property> <index> [thorough]: print the recorded history of one run (debugging aid)
+            let engine = engine_by_name(&args[1]).expect("engine");
+            let property = static_prop(&args[2]);
+            let idx: u64 = args[3].parse().unwrap();
+            let thorough = args.get(4).map(|s| s == "thorough").unwrap_or(false);
+            let seed: u64 = std::env::var("VERIF_SEED").ok().and_then(|s| s.parse().ok()).unwrap_or(1);
+            let cfg = BatchCfg {
+                property,
+                thorough,
+                seed,
+                runs: 1,
+                threads: 1,
+                max_wall_s: 1e9,
+                verif_dir: verif_dir(),
+                label: engine.name().to_string(),
+                shard: (0, 1),
+            };
+            let mut ch = Choices::from_seed(core::run_seed(&cfg, idx));
+            let ctx = RunCtx {
+                property,
+                thorough,
+                want_trace: true,
+            };
+            match core::run_once(engine.as_ref(), &mut ch, &ctx) {
+                Ok(o) => {
+                    for l in &o.trace {
+                        println!("{l}");
+                    }
+                    println!("hash {:016x} violations {}", o.trace_hash, o.violations.len());
+                }
+                Err(e) => println!("harness error: {e}"),
+            }
+        }
         Some("hashes") => {
             // hashes <engine> <property> <n> [thorough]: print "index history-hash violations" for runs 0..n (determinism self-test)
             let engine = engine_by_name(&args[1]).expect("engine");
